@@ -45,7 +45,9 @@ if mode == "demo":
     if rca != 0:
         res["apply_error"] = outa[-500:]
     else:
-        rcb, outb = sh("go build ./... && go test -vet=off -count=1 ./... 2>&1 | grep -v 'no test files' | tail -15", cwd=wt)
+        rcb, outb = sh("go build ./... && unshare -n sh -c 'ip link set lo up; go test -vet=off -count=1 ./... 2>&1' | grep -v 'no test files' | tail -15", cwd=wt)
+        if "FAIL" in outb:
+            rcb = 1
         res["suite_with_patch_rc"] = rcb
         res["suite_tail"] = outb[-600:]
         rc1, out1 = sh("bash %s %s" % (run, wt), timeout=900)
